@@ -41,12 +41,36 @@ package ptrify
 //@      kind(fType(t, i)) != Interface && c01Scope(fType(t, i))
 //@ axiom c01Scope_pointers: forall t RType :: {c01Scope(elem(t))} c01Scope(t) && kind(t) == Ptr ==> c01Scope(elem(t))
 
+//@ macro tuIface() RType = global("textUnmarshaler")
+//@ def isTUS(t RType, tu RType) bool = kind(t) == Struct && (implements(t, tu) || implements(ptrTo(t), tu))
 //@ func ptrify.IsTextUnmarshalerStruct(t) (r)
 //@   props C01
 //@   safety C16
 //@   requires t != nil
 //@   requires wf_package_initialised: global("textUnmarshaler") != nil && kind(global("textUnmarshaler")) == Interface
 //@   ensures r ==> kind(t) == Struct
+//@   ensures C01_text_unmarshaler_structs_are_leaves: r <==> isTUS(t, tuIface())
+
+// The pointerified counterpart of a field type (what pointerifyField builds when the template holds no
+// interface values): maps, slices, interfaces and pointers to non-structs are kept, a struct (or pointer
+// to struct) becomes a pointer to its pointerified struct unless it unmarshals from text, everything else
+// becomes a pointer to itself.  deepShape(S, P): P is the pointerified S, all the way down.
+//@ rec fieldShape(bt RType, ot RType, tu RType) bool =
+//@      ite(kind(bt) == Map || kind(bt) == Slice || kind(bt) == Interface, ot == bt,
+//@      ite(kind(bt) == Ptr && kind(elem(bt)) != Struct, ot == bt,
+//@      ite(kind(bt) == Ptr, ite(isTUS(elem(bt), tu), ot == bt, kind(ot) == Ptr && deepShape(elem(bt), elem(ot), tu)),
+//@      ite(kind(bt) == Struct, ite(isTUS(bt, tu), ot == ptrTo(bt), kind(ot) == Ptr && deepShape(bt, elem(ot), tu)),
+//@          ot == ptrTo(bt)))))
+//@ rec deepShape(s RType, p RType, tu RType) bool = kind(s) == Struct && kind(p) == Struct && numField(p) == retained(s, numField(s))
+//@      && fieldsShape(s, p, numField(s), tu)
+//@ rec fieldsShape(s RType, p RType, n int, tu RType) bool = n <= 0 || (fieldsShape(s, p, n - 1, tu)
+//@      && (keeps(s, n - 1) ==> fName(p, retained(s, n - 1)) == fName(s, n - 1) && fieldShape(fType(s, n - 1), fType(p, retained(s, n - 1)), tu)))
+//@ lemma fieldsShape_at(s RType, p RType, n int, k int, tu RType)
+//@   props C01
+//@   induct n
+//@   trigger fieldsShape(s, p, n, tu), fType(s, k)
+//@   requires 0 <= k && k < n && keeps(s, k) && fieldsShape(s, p, n, tu)
+//@   ensures fName(p, retained(s, k)) == fName(s, k) && fieldShape(fType(s, k), fType(p, retained(s, k)), tu)
 
 //@ func ptrify.pointerifyField(originalField, tmplFieldVal) (sf)
 //@   props C01
